@@ -69,4 +69,42 @@ theorem run_pagewise (hr : Gen.PageDecoder.resetsLastLine = true)
   rw [run_eq_foldl, foldl_pageStep_pagewise hr]
   simp only [List.nil_append]
 
+theorem decodeLine_writeBack (e : Env X H) (s : St H) (l : Line X) :
+    decodeLine e s { l with text := (decodeLine e s l).2 } = decodeLine e s l := by
+  unfold decodeLine
+  by_cases hc : l.confident
+  · simp [hc]
+  · simp only [hc]
+    by_cases hk : e.carry <;> simp [hk]
+
+theorem foldl_writeBack (e : Env X H) :
+    ∀ (pg : List (Line X)) (s : St H) (acc acc' : List (Option Str)),
+      let r := pg.foldl (fun (a : St H × List (Option Str)) l =>
+        let (s', t) := decodeLine e a.1 l
+        (s', a.2 ++ [t])) (s, acc)
+      ∃ outs, r.2 = acc ++ outs ∧ outs.length = pg.length ∧
+        (writeBack pg outs).foldl (fun (a : St H × List (Option Str)) l =>
+          let (s', t) := decodeLine e a.1 l
+          (s', a.2 ++ [t])) (s, acc') = (r.1, acc' ++ outs) := by
+  intro pg
+  induction pg with
+  | nil => intro s acc acc'; exact ⟨[], by simp, by simp, by simp [writeBack]⟩
+  | cons l pg ih =>
+    intro s acc acc'
+    simp only [List.foldl_cons]
+    obtain ⟨outs, h1, h2, h3⟩ := ih (decodeLine e s l).1 (acc ++ [(decodeLine e s l).2]) (acc' ++ [(decodeLine e s l).2])
+    refine ⟨(decodeLine e s l).2 :: outs, ?_, by simp [h2], ?_⟩
+    · simpa [List.append_assoc] using h1
+    · simp only [writeBack, List.zipWith_cons_cons, List.foldl_cons]
+      rw [decodeLine_writeBack]
+      simpa [writeBack, List.append_assoc] using h3
+
+theorem processPage_writeBack (hr : Gen.PageDecoder.resetsLastLine = true) (e : Env X H) (st st' : St H) (pg : List (Line X)) :
+    (processPage e st' (writeBack pg (processPage e st pg).2)).2 = (processPage e st pg).2 := by
+  unfold processPage
+  simp only [hr, if_true]
+  obtain ⟨outs, h1, _, h3⟩ := foldl_writeBack e pg { lastH := none, lastLine := none } [] []
+  simp only [List.nil_append] at h1 h3
+  rw [h1, h3]
+
 end PD
